@@ -222,6 +222,11 @@ def run(ctx):
                     if bx9.term.k == "switch":
                         at9 = flows.of(root).atom(x9)
                         vals9 = [v_ for (v_, t_) in at9["targets"] if t_ == y9] + (["otherwise"] if at9["otherwise"] == y9 else [])
+                        # leaving on the Err outcome of the read itself (`Err(e) => { failure = Some(e); break }`, reported
+                        # after the loop) is not an end of the document
+                        te9_ = at9.get("test")
+                        if isinstance(te9_, tuple) and te9_[0] == "discr" and str(te9_[-1]).startswith("std::result::Result<quick_xml::events::Event"):
+                            vals9 = [v_ for v_ in vals9 if v_ == 0]
                         for v_ in vals9:
                             outs9.append((x9, v_, bx9.term.span))
                     else:
